@@ -28,7 +28,7 @@ RULE = (
 )
 ASSUMPTIONS = [
     "the cap is 'binding' whenever a resulting bond equals max_bond_dim; then only the cap and canonical form are required",
-    "truncation-error bound: precision*sqrt(N-1) for one right-to-left sweep (discarded weight <= precision^2 per bond)",
+    "truncation-error bound: (N-1)*precision for one sweep (discarded weight <= precision^2 at each of the N-1 bonds, triangle inequality)",
 ]
 CHUNK = 1
 SPEC = [0.0, 1e-12, 1e-6, 1e-3, 0.5, 1.0]
